@@ -361,16 +361,26 @@ def _task_one(task):
             # (c) a polymorphic APID must be rejected with ValueError
             from space_packet_parser import xarr
             poly = [framing.mk_packet(bytes([0, 9]), apid=3), framing.mk_packet(bytes([1, 9]), apid=3, seqcount=1)]
-            f1 = write(poly)
-            t.evals += 1
-            with observed_warnings():
-                try:
-                    xarr.create_dataset(f1, defn)
-                    t.violation({"kind": "polymorphic-apid-accepted"}, base_case, note="packets of one APID with different field sets were not rejected")
-                except ValueError:
-                    t.outcomes["polymorphic-rejected"] += 1
-                except Exception as e:  # noqa: BLE001
-                    t.violation({"kind": "polymorphic-apid-wrong-exception", "exc": type(e).__name__}, base_case, observed=repr(e)[:200])
+            import pathlib
+            fine = [framing.mk_packet(bytes([7]), apid=5, seqcount=0)]
+            layouts = {"one file": [poly], "after a file without it": [fine, poly], "its two packets in two files": [poly[:1], poly[1:]]}
+            for lname, parts in layouts.items():
+                paths = [write(part) for part in parts]
+                forms = {"a list": lambda: list(paths), "a tuple": lambda: tuple(paths), "a generator": lambda: (f for f in paths),
+                         "an iterator of Path objects": lambda: iter([pathlib.Path(f) for f in paths]), "a map": lambda: map(str, paths)}
+                if len(paths) == 1:
+                    forms["one path"] = lambda: paths[0]
+                for fname, mk in forms.items():
+                    t.evals += 1
+                    pcase = {**base_case, "polymorphic": lname, "files_given_as": fname}
+                    with observed_warnings():
+                        try:
+                            xarr.create_dataset(mk(), defn)
+                            t.violation({"kind": "polymorphic-apid-accepted"}, pcase, note="packets of one APID with different field sets were not rejected")
+                        except ValueError:
+                            t.outcomes["polymorphic-rejected"] += 1
+                        except Exception as e:  # noqa: BLE001
+                            t.violation({"kind": "polymorphic-apid-wrong-exception", "exc": type(e).__name__}, pcase, observed=repr(e)[:200])
     except BaseException as e:  # noqa: BLE001
         t.violation({"kind": "check-aborted", "exc": type(e).__name__}, base_case, observed=repr(e)[:300])
     for i in range(4):
